@@ -140,7 +140,7 @@ func icchdrCmd(args []string) error {
 		}
 	}
 	// seeded random headers, with and without the signature
-	nr := 300
+	nr := 3000
 	if *tier == "thorough" {
 		nr = 20000
 	}
